@@ -248,6 +248,13 @@ def run_system(case, rng, cls):
         cov['stored_clause_skipped_row_scaling'] = 1
     elif not (e <= allowed_stored):
         bad.append(('residual-stored', 'values left in the variable (with re-imposed boundary values) violate the interior equations (normalised %.3g)' % e))
+    # ... "together with the variable's boundary equations": the values left in the variable satisfy a*dphi/dn + b*phi = c on every
+    # boundary face of its current boundary conditions (oracle geometry)
+    from ..bcrel import check_ghosts
+    bg, meg, cvg = check_ghosts(g, phi._value, phi.BCs)
+    maxerr['stored-boundary-equations'] = meg.get('robin', 0.0)
+    cov['stored_boundary_faces'] = cvg.get('robin_faces', 0) + cvg.get('wrap_faces', 0)
+    bad += [('stored-boundary-equations/' + a_, 'values left in the variable: ' + s_) for a_, s_ in bg]
     # default path equals solveMatrixPDE on the hand-assembled system
     phi2 = pf.CellVariable(m, vals.copy(), gen.make_bc(pf, m, g, spec))
     if edited is not None:
